@@ -81,6 +81,7 @@ func init() {
 		value := unhx(a[5])
 		attributes.Efivars = dir
 		rec := newRecFs(afero.NewMemMapFs())
+		rec.plan.shortFirstWrite = len(a) > 8 && a[8] == "short"
 		if a[6] != "-" { // pre-existing content
 			afero.WriteFile(rec.base, a[7], unhx(a[6]), 0644)
 		}
@@ -153,7 +154,7 @@ func init() {
 		}
 	}
 	checkers["C11"] = checker{
-		rule: "every predefined variable and random name/GUID/attribute combinations, values of every kind (empty, boolean, UTF-16 string, database, raw), all 256 attribute masks on writes, stored masks that are supersets / subsets / disjoint / equal on reads, absent and 0..3-byte files, four efivars directories, the object API (EFIFS.WriteVar/GetVar/GetVarWithAttributes, FSWrapper) and the legacy attributes.* functions; a recording afero.Fs reports every state-changing call; R_C11 (extracted) requires success with exactly OpenFile(path, flags)+Write(attrs||value) resp. the model's read result; every case is non-trivial (no degenerate class), distinct by argument hash",
+		rule: "every predefined variable and random name/GUID/attribute combinations, values of every kind (empty, boolean, UTF-16 string, database, raw), all 256 attribute masks on writes, stored masks that are supersets / subsets / disjoint / equal / lacking exactly one required bit on reads, absent and 0..3-byte files, four efivars directories, the object API (EFIFS.WriteVar/GetVar/GetVarWithAttributes, FSWrapper) and the legacy attributes.* functions; a recording afero.Fs reports every state-changing call; R_C11 (extracted) requires success with exactly OpenFile(path, flags)+Write(attrs||value) (and, when the file system stores one byte less without an error, the same single Write and no success) resp. the model's read result; every case is non-trivial (no degenerate class), distinct by argument hash",
 		run:  runC11,
 	}
 }
@@ -185,6 +186,18 @@ func runC11(c *Ctx) {
 		args := []string{hx([]byte(dir)), hx([]byte(v.Name)), guidArg(g), fmt.Sprint(attrs), hx(value), ok, trace}
 		vd, info := c.Drv.Eval("var_write", args...)
 		c.Rep.Record("var_write/"+api, class, true, prePath, args, vd, info, map[string]string{"api": api})
+		if rng.Intn(8) == 0 {
+			// the file system takes one byte less than it was given and reports no error: still
+			// exactly one Write of attrs||value, and no success
+			o := c.Impl("var_write", api, hx([]byte(dir)), hx([]byte(v.Name)), guidArg(g), fmt.Sprint(attrs), hx(value), pre, prePath, "short")
+			ok, trace := "1", "X~worker-"+o.Class
+			if o.Class == "ret" && len(o.Fields) == 2 {
+				ok, trace = o.Fields[0], o.Fields[1]
+			}
+			args := []string{hx([]byte(dir)), hx([]byte(v.Name)), guidArg(g), fmt.Sprint(attrs), hx(value), ok, trace}
+			vd, info := c.Drv.Eval("var_write_short", args...)
+			c.Rep.Record("var_write_short/"+api, class, true, prePath, args, vd, info, map[string]string{"api": api})
+		}
 	}
 	doRead := func(api string, name string, g util.EFIGUID, dir string, req uint32, content []byte, absent bool, class string) {
 		if api == "legacy" {
@@ -240,7 +253,23 @@ func runC11(c *Ctx) {
 		req := uint32(v.Attributes)
 		var stored uint32
 		rclass := ""
-		switch rng.Intn(5) {
+		switch rng.Intn(6) {
+		case 5:
+			// exactly one required bit is missing from the stored mask (and some others may be extra)
+			stored, rclass = req, "one-required-bit-missing"
+			if req == 0 {
+				req = 1 << uint(rng.Intn(8))
+				v.Attributes = attributes.Attributes(req)
+				stored = 0
+			} else {
+				bits := []uint32{}
+				for b := uint32(1); b < 256; b <<= 1 {
+					if req&b != 0 {
+						bits = append(bits, b)
+					}
+				}
+				stored = (req &^ pick(rng, bits)) | uint32(rng.Intn(256))&^req
+			}
 		case 0:
 			stored, rclass = req, "equal"
 		case 1:
